@@ -105,6 +105,42 @@ def startAfterStop (s : ARFO) : ARFO × Res :=
   | none => (s, .panic)
   | some c => ({ s with restartI := 0 }, .ok { act := .start, spec := c })
 
+/-- the `s.mode == 2` (stopping for a restart) branch of childTerminated -/
+def stoppingStep (s : ARFO) (specI : Nat) (reason : Reason) : ARFO × Res :=
+  if s.keeporder = false then
+    if s.wait.length > 0 then (s, .ok { act := .terminateChildren })
+    else startAfterStop s
+  else
+    if s.wait.length > 0 then (s, .panic)        -- "must be 0": panic(gen.ErrInternal)
+    else
+      let s := if specI < s.restartI then { s with restartI := specI } else s
+      let (s, t) := childrenForTermination s
+      if t.length > 0 then (s, .ok { act := .terminateChildren, reason := some reason, terminate := t })
+      else startAfterStop s
+
+/-- "activate restart strategy": set the restarting position, stop the group or start right away -/
+def restartStep (s : ARFO) (specI : Nat) (reason : Reason) : ARFO × Res :=
+  let s := if s.rest then { s with restartI := specI } else s
+  let (s, t) := childrenForTermination s
+  if t.length = 0 then
+    match childForStart s with
+    | none => (s, .panic)
+    | some c => ({ s with mode := 1 }, .ok { act := .start, spec := c })
+  else ({ s with mode := 2 }, .ok { act := .terminateChildren, reason := some reason, terminate := t })
+
+/-- "check for restart intensity" and what follows -/
+def intensityStep (s : ARFO) (sc : Scan) (specI : Nat) (reason : Reason) (now : Int) : ARFO × Res :=
+  let chk := Window.check s.restarts now s.restart.periodMs s.restart.intensity
+  let s := { s with restarts := chk.1 }
+  if chk.2 then
+    ({ s with wait := mkSet sc.running, mode := 3, shutdownReason := some .restartsExceeded },
+     .ok { act := .terminateChildren, terminate := sc.running, reason := some .restartsExceeded })
+  else restartStep s specI reason
+
+/-- the branches that do not restart: significant child / auto shutdown / nothing -/
+def quietStep (s : ARFO) (sc : Scan) (spec : ChildSpec) (reason : Reason) : ARFO × Res :=
+  if spec.significant then stopAll s sc reason else autoShutdown s sc reason
+
 /-- supARFO.childTerminated -/
 def childTerminated (s0 : ARFO) (name pid : Nat) (reason : Reason) (now : Int) : ARFO × Res :=
   let s := { s0 with wait := sdel pid s0.wait }
@@ -117,42 +153,13 @@ def childTerminated (s0 : ARFO) (name pid : Nat) (reason : Reason) (now : Int) :
     match sc.found with
     | none => stopAll s sc reason
     | some (specI, spec) =>
-      if s.mode = 2 then
-        if s.keeporder = false then
-          if s.wait.length > 0 then (s, .ok { act := .terminateChildren })
-          else startAfterStop s
-        else
-          if s.wait.length > 0 then (s, .panic)
-          else
-            let s := if specI < s.restartI then { s with restartI := specI } else s
-            let (s, t) := childrenForTermination s
-            if t.length > 0 then (s, .ok { act := .terminateChildren, reason := some reason, terminate := t })
-            else startAfterStop s
+      if s.mode = 2 then stoppingStep s specI reason
       else if spec.disabled then autoShutdown s sc reason
       else
-        let quietPath : Option (ARFO × Res) :=
-          match s.restart.strategy with
-          | .temporary => some (if spec.significant then stopAll s sc reason else autoShutdown s sc reason)
-          | .transient =>
-            if reason.quiet then some (if spec.significant then stopAll s sc reason else autoShutdown s sc reason)
-            else none
-          | .permanent => none
-        match quietPath with
-        | some r => r
-        | none =>
-          let chk := Window.check s.restarts now s.restart.periodMs s.restart.intensity
-          let s := { s with restarts := chk.1 }
-          if chk.2 then
-            ({ s with wait := mkSet sc.running, mode := 3, shutdownReason := some reason },
-             .ok { act := .terminateChildren, terminate := sc.running, reason := some .restartsExceeded })
-          else
-            let s := if s.rest then { s with restartI := specI } else s
-            let (s, t) := childrenForTermination s
-            if t.length = 0 then
-              match childForStart s with
-              | none => (s, .panic)
-              | some c => ({ s with mode := 1 }, .ok { act := .start, spec := c })
-            else ({ s with mode := 2 }, .ok { act := .terminateChildren, reason := some reason, terminate := t })
+        match s.restart.strategy with
+        | .temporary => quietStep s sc spec reason
+        | .transient => if reason.quiet then quietStep s sc spec reason else intensityStep s sc specI reason now
+        | .permanent => intensityStep s sc specI reason now
 
 /-- supARFO.childEnable -/
 def childEnable (s : ARFO) (name : Nat) : ARFO × Res :=
@@ -172,7 +179,7 @@ def childDisable (s : ARFO) (name : Nat) : ARFO × Res :=
     | none => (s, .err .unknown)
     | some c =>
       if c.disabled then (s, .ok {})
-      else if c.pid = 0 then (s, .ok {})
+      else if c.pid = 0 then ({ s with spec := updName name (fun c => { c with disabled := true }) s.spec }, .ok {})
       else
         ({ s with spec := updName name (fun c => { c with disabled := true }) s.spec, wait := sins c.pid s.wait },
          .ok { act := .terminateChildren, terminate := [c.pid], reason := some .shutdown })
